@@ -408,8 +408,16 @@ func printEvent(w io.Writer, color, symbol, verb string, events int) {
 	colors.Fprint(w, color, fmt.Sprintf("%s%v %s %s\n", symbol, events, subject, verb))
 }
 
+// standaloneOccurrenceFMT substitutes the occurrence into the path template of a standalone snapshot. Only the
+// placeholder added by constructFilename - the last "%d" - is substituted: the rest of the path may contain '%'
+// (sub-test names, directories).
 func standaloneOccurrenceFMT(s string, i int) string {
-	return fmt.Sprintf(s, i)
+	idx := strings.LastIndex(s, "%d")
+	if idx < 0 {
+		return s
+	}
+
+	return s[:idx] + strconv.Itoa(i) + s[idx+2:]
 }
 
 func snapshotOccurrenceFMT(s string, i int) string {
